@@ -2,6 +2,7 @@
 
 from __future__ import annotations
 
+import heapq
 import json
 from collections.abc import Iterable, Iterator, Mapping
 from dataclasses import dataclass, field, replace
@@ -648,7 +649,8 @@ class Hugr(Mapping[Node, NodeData], Generic[OpVarCov]):
         """
         mapping: dict[Node, Node] = {}
 
-        for node, node_data in hugr.nodes():
+        for node in hugr._hierarchy_order():
+            node_data = hugr[node]
             # relies on parents being inserted before any children
             try:
                 node_parent = mapping[node_data.parent] if node_data.parent else parent
@@ -667,6 +669,28 @@ class Hugr(Mapping[Node, NodeData], Generic[OpVarCov]):
                 mapping[dst.port.node].inp(dst.port.offset),
             )
         return mapping
+
+    def _hierarchy_order(self) -> list[Node]:
+        """The nodes in ascending index order, except that a node always comes
+        after its parent and after the siblings that precede it in its parent's
+        child list (indices freed by deleted nodes are reused, so a child can
+        have a smaller index than its parent or than an earlier sibling).
+        """
+        order: list[Node] = []
+        # heap of (node index, position among its siblings)
+        ready: list[tuple[int, int]] = [(self.root.idx, 0)]
+        while ready:
+            idx, pos = heapq.heappop(ready)
+            data = self._nodes[idx]
+            assert data is not None
+            order.append(Node(idx, data.metadata))
+            if data.children:
+                heapq.heappush(ready, (data.children[0].idx, 0))
+            if data.parent is not None:
+                siblings = self[data.parent].children
+                if pos + 1 < len(siblings):
+                    heapq.heappush(ready, (siblings[pos + 1].idx, pos + 1))
+        return order
 
     def _to_serial(self) -> SerialHugr:
         """Serialize the HUGR."""
